@@ -4,7 +4,7 @@ from __future__ import annotations
 import z3
 
 from pyvc.contracts import Case, Contract, LoopSpec
-from pyvc.core import ANY, BOOL, BYTES, INT, NONE, REF, STR, SV, ExcV
+from pyvc.core import ANY, BOOL, BYTES, INT, NONE, REF, SEQ, STR, SV, ExcV
 from pyvc.pybuiltins import I32_MAX, I32_MIN, be32, s8, unbe32, uns8
 from pyvc.symexec import ExternD, FUNCT
 
@@ -73,6 +73,30 @@ def declare(w):
             note="OS read/recv: a non-empty prefix (at most n bytes) of what is still to come, or b'' at end of stream",
         )
 
+    # closing one direction: socket.shutdown(how) with how = 0 (no more receives), 1 (no more sends); recorded as a history of attempts
+    s.declare("Sock", "$shutdowns", SEQ(INT), ghost=True)
+    s.declare("RawIn", "$closed", BOOL, ghost=True)
+    s.declare("RawOut", "$closed", BOOL, ghost=True)
+    shut = lambda h, so: h("Sock", so, "$shutdowns")
+    w.add(Contract("model:Sock.shutdown", {"self": REF("Sock"), "how": INT}, modifies=lambda a, h: [("Sock", a.self, "$shutdowns")],
+                   cases=[Case(n_, k_, e_, post=lambda a, h, h2, r: [shut(h2, a.self) == z3.Concat(shut(h, a.self), z3.Unit(a.how))]) for n_, k_, e_ in (("ok", "return", None), ("not-connected", "raise", "OSError"))],
+                   trusted=True, note="socket.shutdown: SHUT_RD = 0, SHUT_WR = 1; ENOTCONN when the peer is already gone"))
+    for cls_ in ("RawIn", "RawOut"):
+        w.add(Contract(f"model:{cls_}.close", {"self": REF(cls_)}, modifies=(lambda c_: lambda a, h: [(c_, a.self, "$closed")])(cls_),
+                       cases=[Case("ok", post=(lambda c_: lambda a, h, h2, r: [h2(c_, a.self, "$closed")])(cls_))], trusted=True, note="file.close()"))
+    SIO = "execnet.gateway_socket:SocketIO"
+    ssock = lambda a, h: h("SocketIO", a.self, "sock")
+    # the IO contract's two half closes: close_write ends THIS side's sending (the peer then reads end of stream: C04), close_read ends the receiving; neither raises
+    w.add(Contract(f"{SIO}.close_write", {"self": REF("SocketIO")}, requires=lambda a, h: [("has-socket", ssock(a, h) != 0)], modifies=lambda a, h: [("Sock", ssock(a, h), "$shutdowns")],
+                   cases=[Case("ok", post=lambda a, h, h2, r: [shut(h2, ssock(a, h)) == z3.Concat(shut(h, ssock(a, h)), z3.Unit(z3.IntVal(1)))])], props=["C04", "C08", "C16"]))
+    w.add(Contract(f"{SIO}.close_read", {"self": REF("SocketIO")}, requires=lambda a, h: [("has-socket", ssock(a, h) != 0)], modifies=lambda a, h: [("Sock", ssock(a, h), "$shutdowns")],
+                   cases=[Case("ok", post=lambda a, h, h2, r: [shut(h2, ssock(a, h)) == z3.Concat(shut(h, ssock(a, h)), z3.Unit(z3.IntVal(0)))])], props=["C04", "C08", "C16"]))
+    w.add(Contract(f"{GB}:Popen2IO.close_write", {"self": REF("Popen2IO")}, requires=lambda a, h: [("has-file", h("Popen2IO", a.self, "outfile") != 0)],
+                   modifies=lambda a, h: [("RawOut", h("Popen2IO", a.self, "outfile"), "$closed")],
+                   cases=[Case("ok", post=lambda a, h, h2, r: [h2("RawOut", h("Popen2IO", a.self, "outfile"), "$closed")])], props=["C04", "C08", "C16"]))
+    w.add(Contract(f"{GB}:Popen2IO.close_read", {"self": REF("Popen2IO")}, requires=lambda a, h: [("has-file", h("Popen2IO", a.self, "infile") != 0)],
+                   modifies=lambda a, h: [("RawIn", h("Popen2IO", a.self, "infile"), "$closed")],
+                   cases=[Case("ok", post=lambda a, h, h2, r: [h2("RawIn", h("Popen2IO", a.self, "infile"), "$closed")])], props=["C04", "C08", "C16"]))
     w.add(os_read("RawIn", "model:RawIn.read", "n"))
     w.add(os_read("Sock", "model:Sock.recv", "n"))
 
